@@ -9,9 +9,46 @@ import (
 // grid 5: a predicate next to the keep-array marker and an order-by, in every
 // order, on sequences of one, two and three items: one item kept is the item
 // itself unless the path carries the marker (wherever the marker is written).
-func c02Grid5() int64 { return 3 * 7 * 5 }
+func c02Grid5() int64 { return 3*7*5 + c02Grid6() }
+
+// grid 6: a predicate applied to a parenthesised filtered step, (a[P])[Q]: Q is
+// applied once to everything the parenthesised path yields, not to the items a
+// selects under each context item (which is what a[P][Q] means).
+func c02Grid6() int64 { return 3 * 5 * 5 * 4 }
+
+func c02Case6(i int64) (jast.Node, interface{}, string) {
+	qi := int(i % 5)
+	i /= 5
+	pi := int(i % 5)
+	i /= 5
+	form := int(i % 4)
+	di := int(i / 4)
+	doc := []interface{}{
+		A{O{"a": A{1.0, 2.0, 3.0}}, O{"a": A{4.0, 5.0, 6.0}}},
+		O{"a": A{A{1.0, 2.0}, A{3.0}}},
+		O{"x": A{O{"a": A{1.0, 2.0, 3.0}}, O{"a": 7.0}, O{"a": A{8.0, 9.0}}}, "a": A{0.0, 5.0}},
+	}[di]
+	mk := func(k int) jast.Node {
+		return []jast.Node{&jast.Num{V: 0}, &jast.Num{V: -1}, &jast.Num{V: 1},
+			&jast.Bin{Op: ">", L: &jast.Var{Name: ""}, R: &jast.Num{V: 1}}, &jast.Bool{V: true}}[k]
+	}
+	inner := &jast.Block{Exprs: []jast.Node{&jast.Pred{X: &jast.Name{V: "a"}, Filters: []jast.Node{mk(pi)}}}}
+	var tree jast.Node = &jast.Pred{X: inner, Filters: []jast.Node{mk(qi)}}
+	switch form {
+	case 1:
+		tree = &jast.Path{Steps: []jast.Node{&jast.Name{V: "x"}, tree}} // x.(a[P])[Q]
+	case 2:
+		tree = &jast.Path{Steps: []jast.Node{&jast.Var{Name: ""}, tree}} // $.(a[P])[Q]
+	case 3:
+		tree = &jast.Array{Items: []jast.Node{tree, &jast.Pred{X: &jast.Pred{X: &jast.Name{V: "a"}, Filters: []jast.Node{mk(pi)}}, Filters: []jast.Node{mk(qi)}}}} // [(a[P])[Q], a[P][Q]]
+	}
+	return tree, doc, fmt.Sprintf("grid6:form%d", form)
+}
 
 func c02Case5(i int64) (jast.Node, interface{}, string) {
+	if i >= 3*7*5 {
+		return c02Case6(i - 3*7*5)
+	}
 	pi := int(i % 5)
 	i /= 5
 	form := int(i % 7)
